@@ -72,7 +72,8 @@ impl<'a> PrettyPrinter<'a> {
             return prefix_doc;
         }
 
-        let import_items_doc = self.convert_import_items(ctx, import_items_nodes);
+        let import_items_doc =
+            self.convert_import_items(ctx, import.to_untyped(), import_items_nodes);
         // A line comment at the end of the prefix must be terminated before the items.
         let sep = if prefix_part
             .last()
@@ -88,12 +89,14 @@ impl<'a> PrettyPrinter<'a> {
     fn convert_import_items(
         &'a self,
         ctx: Context,
+        import_node: &'a SyntaxNode,
         mut import_items_nodes: Vec<&'a SyntaxNode>,
     ) -> ArenaDoc<'a> {
         // Sort import items if the configuration allows it.
-        // The sorting is only applied if all nodes are not comments and if there are no duplicate names.
+        // The sorting is only applied if the import contains no comment at all (not even inside an item
+        // or in front of the items) and if there are no duplicate names.
         if self.config.reorder_import_items
-            && import_items_nodes.iter().all(|node| !is_comment_node(node))
+            && !contains_comment(import_node)
             && check_import_name_duplication(&import_items_nodes)
         {
             // Sort import items by their text representation.
@@ -152,6 +155,11 @@ impl<'a> PrettyPrinter<'a> {
             }
         })
     }
+}
+
+/// Returns whether the node is a comment or has a comment anywhere below it.
+fn contains_comment(node: &SyntaxNode) -> bool {
+    is_comment_node(node) || node.children().any(contains_comment)
 }
 
 /// Check for duplicate import names in the given import items nodes.
